@@ -236,6 +236,13 @@ def numeric(ctx, chk, tier):
         outs, _ = explore_auc(ctx, chk, "fpr", "tpr", stub=False, sc=sc, ec=ec)
         rets = returns(outs)
         inst = "%s/%s" % (sc, ec)
+        raw = [e for o in rets for e in o.events if e["kind"] == "raw_store"]
+        if raw:
+            e = raw[0]
+            chk.violation("R07.6", AUCQ, inst + ":points-in-score-dtype", "%s = <float> stores float-valued evaluation points into an array that still has the scores' dtype" % e.get("text", "?")[:60],
+                          "evaluation points one ulp either side of every score (for integer or float32 scores the store truncates / rounds them back onto the scores)",
+                          "%s line %s" % (ctx.where(AUCQ), getattr(e.get("node"), "lineno", "?")))
+            continue
         if not rets or len(rets) > 8 or any(o.unmodelled for o in rets):
             chk.unknown("R07.6", "auc() %s not reducible to closed forms (%d return paths)" % (inst, len(rets)))
             continue
